@@ -106,6 +106,10 @@ pub fn install_quiet_panic_hook() {
     }));
 }
 
+pub fn last_panic() -> String {
+    LAST_PANIC.with(|p| p.borrow().clone())
+}
+
 pub fn guard<T>(f: impl FnOnce() -> T) -> Caught<T> {
     match catch_unwind(AssertUnwindSafe(f)) {
         Ok(v) => Caught::Ok(v),
